@@ -386,9 +386,13 @@ def c10_corrupt(d):
 
 def dyn_kinds(w, q):
     if q:
-        return [("dynA", dict(traces=3, n=0, steps=330)), ("dynB", dict(traces=2, n=4, steps=380))]
+        return [("dynA", dict(traces=3, n=0, steps=330)), ("dynB", dict(traces=2, n=4, steps=380)),
+                ("dynG", dict(traces=2, n=3, steps=330, arg="growth")),
+                ("dynH", dict(traces=2, n=3, steps=360, arg="growth", txp=0.01))]  # few blocks: block index far below its round
     return [("dyn%d" % i, dict(traces=4, n=0, steps=600)) for i in range(5)] + \
-           [("dynN4", dict(traces=4, n=4, steps=700)), ("dynBd", dict(traces=2, n=3, steps=500, store="badger", cache=500))]
+           [("dynN4", dict(traces=4, n=4, steps=700)), ("dynBd", dict(traces=2, n=3, steps=500, store="badger", cache=500)),
+            ("dynG", dict(traces=6, n=3, steps=450, arg="growth")),
+            ("dynH", dict(traces=6, n=3, steps=450, arg="growth", txp=0.01))]
 
 
 def plan_C10(w):
@@ -408,6 +412,42 @@ def plan_C10(w):
     if ops["joins"] + ops["leaves"] < 2:
         raise Infra("vacuous run: no membership change happened")
     return conclude(w, "C10", sums, violations, known_hits, drift, extra=extra)
+
+
+def c09_corrupt(d):
+    # the store reports a recorded signature that does not verify
+    if d.get("a") == "Sync":
+        for b in d["o"].get("store", []):
+            if b["sigs"]:
+                b["sigs"][0]["q"] = "bad"
+                return True
+    return False
+
+
+def plan_C09(w):
+    q = Q(w)
+    known = vlib.load_known()
+    run_mc(w, [("hg1", "MC_hg1.cfg", 4, 300), ("hg2q", "MC_hg2q.cfg", 8, 600)])
+    traces, sums = drive_all(w, gossip_specs(w, dyn_kinds(w, q)), mode="dyn")
+    g = [("gsp", dict(traces=4 if q else 12, n=0, steps=130 if q else 250, sched="mix"))]
+    t2, s2 = drive_all(w, gossip_specs(w, g))
+    tvs = w.validate_many(traces + t2, par=6)
+    violations, known_hits, drift = judge(w, "C09", tvs, known)
+    st = None
+    if not violations:
+        st = selftest(w, "C09", first_segment(t2[0], os.path.join(w.dir, "seg.ndjson")), c09_corrupt,
+                      "a recorded block signature reported as not verifying")
+    inj = {}
+    for s in sums:
+        for k, v in s.get("extra", {}).get("adversarial_signature_events", {}).items():
+            inj[k] = inj.get(k, 0) + v
+    if sum(inj.values()) < 3:
+        raise Infra("vacuous run: no adversarial signature payload was injected")
+    extra = {"selftest": st, "adversarial_signature_events": inj,
+             "payloads": "signature over another body, valid signatures for old / recent blocks by validators that joined later or left (not in the block's round set), duplicates, future and negative block indexes; published by Byzantine validators (one genesis validator when n >= 4, every joiner) as events on their own chain, while validator sets change"}
+    return conclude(w, "C09", sums + s2, violations, known_hits, drift, extra=extra,
+                    assumptions=["signature validity is decided by the driver's own ECDSA verification against the observing node's own block body",
+                                 "malformed signature encodings are exercised by the C08 check (they abort ProcessSigPool)"])
 
 
 def c18_corrupt(d):
@@ -475,6 +515,7 @@ def plan_C19(w):
 
 
 PLANS = {
+    "C09": plan_C09,
     "C06": plan_C06,
     "C07": plan_C07,
     "C10": plan_C10,
